@@ -46,7 +46,7 @@ CPUS = {
     "68000": dict(db="dc.b", pre=["padding off"], sw="switch", limit=0xffff00),
     "8086": dict(db="db", pre=[], sw="switch", limit=0xff00),
     "msp430": dict(db=".byte", pre=["padding off"], sw="switch", limit=0xff00),
-    "msm5054": dict(db="data", pre=[], sw="select", limit=1000),     # SWITCH is a machine instruction here
+    "msm5054": dict(db="data", pre=[], sw="select", limit=1000, unit=2),     # SWITCH is a machine instruction here
 }
 CPU_NAMES = list(CPUS)
 
@@ -65,10 +65,13 @@ EXIST_FORMS = [("here.inc", True), ("\"here.inc\"", True), ("here", True), ("\"h
 POISON = [
     "\terror \"poison\"", "\tfatal \"poison\"", "\twarning \"poison\"", "\txyzzy 1,2", "\torg 3",
     "\tcpu nosuchcpu", "\tend", "\tinclude \"gone.inc\"", "K1\tequ 99", "\t{db} 1,2,3",
-    "\tnosuchmacro a,b", "\tbinclude \"gone.bin\"", "\tif", "REPT", "\t{db} nowhere+1", "\tphase 77",
-    "PM", "\t{db} \"unterminated", "\tinclude \"poison.inc\"",
+    "\tnosuchmacro a,b", "\tbinclude \"gone.bin\"", "\tsave", "\tendsection", "\t{db} nowhere+1", "\tphase 77",
+    "\tPM", "\t{db} \"unterminated", "\tinclude \"poison.inc\"",
 ]
+# erroneous single-argument expressions; rendered only as conditions of constructs in skipped text
+PCOND = ["nowhere+1", "1/0", "\"text\"", "3.5", "(5", "K1 K1", "undefd(3)", "NIX", "K1+"]
 SENTINEL = 0xfe
+PARAMS = ["QA", "QB", "QC", "QD"]
 MAXLEAF = 119
 
 
@@ -91,6 +94,10 @@ def ev_value(v, st=None):
     k = v[0]
     if k == "n":
         return int(v[1])
+    if k == "p":
+        if st is None or st.args is None:
+            raise ModelError("loop parameter outside a loop")
+        return int(st.args[0])
     if k == "s":
         n = v[1]
         if n in CONSTS:
@@ -101,7 +108,7 @@ def ev_value(v, st=None):
             return FCONSTS[n]
         raise ModelError("unknown constant " + n)
     if k in ("add", "sub"):
-        a, b = ev_value(v[1]), ev_value(v[2])
+        a, b = ev_value(v[1], st), ev_value(v[2], st)
         if not (isinstance(a, int) and isinstance(b, int)):
             raise ModelError("add/sub of non-integers")
         return a + b if k == "add" else a - b
@@ -118,11 +125,11 @@ def ev_value(v, st=None):
 
 def ev_expr(e, st):
     k = e[0]
-    if k in ("n", "s", "add", "sub"):
+    if k in ("n", "s", "p", "add", "sub"):
         if k in ("add", "sub"):
             a, b = ev_expr(e[1], st), ev_expr(e[2], st)
             return a + b if k == "add" else a - b
-        r = ev_value(e)
+        r = ev_value(e, st)
         if not isinstance(r, int):
             raise ModelError("non-integer atom in IF expression")
         return r
@@ -154,6 +161,8 @@ def tx_value(v):
     k = v[0]
     if k == "n":
         return _num(int(v[1]))
+    if k == "p":
+        return "QA"
     if k == "s":
         return v[1]
     if k in ("add", "sub"):
@@ -171,7 +180,7 @@ def tx_value(v):
 
 def tx_expr(e):
     k = e[0]
-    if k in ("n", "s"):
+    if k in ("n", "s", "p"):
         return tx_value(e)
     if k in ("add", "sub"):
         return "(%s%s%s)" % (tx_expr(e[1]), "+" if k == "add" else "-", tx_expr(e[2]))
@@ -243,7 +252,17 @@ class Walker:
 
     def stmt(self, w, arg="", role=None, node=None):
         ind = "\t" if (self.style >> 3) % 3 else "  "
-        self.emit(ind + self.kw(w) + ((" " if (self.style >> 5) % 2 else "\t") + arg if arg != "" else ""),
+        com = ""
+        if (self.style >> 7) % 2:
+            # comments that look like conditional statements must stay comments
+            c = (self.lc + self.style) % 7
+            if c == 0:
+                self.emit(";\tendif", None, None)
+            elif c == 1:
+                com = "\t; else"
+            elif c == 2:
+                com = " ;endcase"
+        self.emit(ind + self.kw(w) + ((" " if (self.style >> 5) % 2 else "\t") + arg if arg != "" else "") + com,
                   role, node)
 
     def db(self, val):
@@ -262,7 +281,7 @@ class Walker:
         if k == "ex":
             return ("ifnexist" if neg else "ifexist"), EXIST_FORMS[c["f"]][0]
         if k == "b":
-            return ("ifnb" if neg else "ifb"), ",".join(("P%d" % a) if isinstance(a, int) else a for a in c["a"])
+            return ("ifnb" if neg else "ifb"), ",".join(PARAMS[a] if isinstance(a, int) else a for a in c["a"])
         raise ModelError("bad cond")
 
     def cond_truth(self, c):
@@ -349,8 +368,12 @@ class Walker:
     def do_if(self, n, active, depth):
         self.stats["depth"] = max(self.stats["depth"], depth)
         w, arg = self.cond_text(n["c"])
+        dead = self.render and self.interp and not active      # combined walk: this text is never assembled
+        if dead and n.get("pc") is not None:
+            w, arg = "if", PCOND[n["pc"] % len(PCOND)]
+            self.stats["kinds"].add("poison-cond")
         self.stmt(w, arg, "open", n)
-        self.stack.append(["I", 0])
+        self.stack.append(["I", 0, bool(self.interp and active)])
         found = False
         take = bool(self.interp and active and self.cond_truth(n["c"]))
         found = take
@@ -358,7 +381,8 @@ class Walker:
         self._branch(n["b"], take, depth, bi)
         for ei in n["ei"]:
             bi += 1
-            self.stmt("elseif", tx_expr(ei["e"]), "mid", n)
+            self.stmt("elseif", PCOND[ei["pc"] % len(PCOND)] if dead and ei.get("pc") is not None
+                      else tx_expr(ei["e"]), "mid", n)
             take = False
             if self.interp and active and not found:
                 self.stats["evals"] += 1
@@ -381,11 +405,15 @@ class Walker:
 
     def do_switch(self, n, active, depth):
         self.stats["depth"] = max(self.stats["depth"], depth)
-        self.stmt(self.t["sw"], tx_value(n["sel"]), "open", n)
-        self.stack.append(["S", 0])
+        dead = self.render and self.interp and not active
+        if dead and n.get("pc") is not None:
+            self.stats["kinds"].add("poison-cond")
+        self.stmt(self.t["sw"], PCOND[n["pc"] % len(PCOND)] if dead and n.get("pc") is not None
+                  else tx_value(n["sel"]), "open", n)
+        self.stack.append(["S", 0, bool(self.interp and active)])
         sel = None
         if self.interp and active:
-            sel = ev_value(n["sel"])
+            sel = ev_value(n["sel"], self)
             self.stats["evals"] += 1
             self.stats["kinds"].add("switch-" + type(sel).__name__)
         if n.get("pre") is not None:
@@ -395,12 +423,13 @@ class Walker:
         bi = 0
         nmatch = 0
         for cs in n["cs"]:
-            self.stmt("case", ",".join(tx_value(v) for v in cs["v"]), "mid", n)
+            self.stmt("case", "nowhere,1/0,K1+" if dead and cs.get("pc") is not None
+                      else ",".join(tx_value(v) for v in cs["v"]), "mid", n)
             take = False
             if self.interp and active:
                 hit = False
                 for v in cs["v"]:
-                    x = ev_value(v)
+                    x = ev_value(v, self)
                     if type(x) is type(sel) or (isinstance(x, Fraction) and isinstance(sel, Fraction)):
                         if x == sel:
                             hit = True
@@ -500,7 +529,10 @@ def shape_of(body):
 def item_size(item):
     """upper bound of the bytes one slot of this item can hold"""
     n = len(leaves_of(item["body"]))
-    return 3 * n + 4
+    if item.get("loop"):
+        lp = item["loop"]
+        return 2 * n * (len(lp["vals"]) if lp["k"] == "irp" else lp["n"]) + 4
+    return 3 * n + 6
 
 
 def slot_size(item):
@@ -542,6 +574,8 @@ class Program:
             size = slot if slot else slot_size(it)
             if it.get("mac"):
                 base = self._macro_item(idx, it, base, size)
+            elif it.get("loop"):
+                base = self._loop_item(idx, it, base, size)
             else:
                 w.emit("\torg\t%d" % base)
                 w.out = []
@@ -584,67 +618,171 @@ class Program:
             k = lf["id"]
             sym = "S%d_%d" % (idx, k)
             form = (pf + k) % 4 if pf else 0
-            defined = w.interp and w.is_defined(sym)
+            defined = bool(w.interp and w.is_defined(sym))
+            w.cur_active = True
             if form in (0, 3):
-                w.stmt("ifdef", sym if form == 0 else sym.lower())
+                w.stmt("ifdef", sym if form == 0 else sym.lower(), "open")
+                w.stack.append(["I", 0, True])
+                w.cur_active = defined
                 w.db(str(128 + k))
-                w.stmt("endif")
             elif form == 1:
-                w.stmt("ifndef", sym)
-                w.stmt("else")
+                w.stmt("ifndef", sym, "open")
+                w.stack.append(["I", 0, True])
+                w.cur_active = not defined
+                w.stmt("else", "", "mid")
+                w.stack[-1][1] = 1
+                w.cur_active = defined
                 w.db(str(128 + k))
-                w.stmt("endif")
             else:
-                w.stmt("if", "defined(%s)" % sym)
+                w.stmt("if", "defined(%s)" % sym, "open")
+                w.stack.append(["I", 0, True])
+                w.cur_active = defined
                 w.db(str(128 + k))
-                w.stmt("endif")
+            w.stmt("endif", "", "close")
+            w.stack.pop()
+            w.cur_active = True
             if defined:
                 w.out.append(128 + k)
+
+    # -- wrappers around a macro call / loop: [["I", truth], ["S", truth]...] (outermost first)
+    def _wrap_open(self, wr):
+        w = self.w
+        act = True
+        for ty, t in wr:
+            w.cur_active = act
+            if ty == "I":
+                w.stmt("if", ["0", "1"][t] if (w.lc % 2) else ["K0", "(K5>1)"][t], "open")
+                w.stack.append(["I", 0, act])
+            else:
+                w.stmt(w.t["sw"], "1", "open")
+                w.stack.append(["S", 0, act])
+                w.stmt("case", "1" if t else "2", "mid")
+            act = act and bool(t)
+        w.cur_active = act
+        return act
+
+    def _wrap_close(self, wr):
+        w = self.w
+        acts = [True]
+        for ty, t in wr:
+            acts.append(acts[-1] and bool(t))
+        for i in range(len(wr) - 1, -1, -1):
+            ty, t = wr[i]
+            if ty == "I":
+                w.stmt("endif", "", "close")
+            else:
+                w.stmt("elsecase", "", "mid")
+                w.stack[-1][1] = 1
+                w.cur_active = acts[i] and not t
+                w.stmt("endcase", "", "close")
+            w.stack.pop()
+            w.cur_active = acts[i]
 
     def _macro_item(self, idx, it, base, size):
         w = self.w
         m = it["mac"]
         name = "MC%d" % idx
+        wrs = m.get("wr") or [[] for _ in m["calls"]]
         # 1. interpret the calls (in program order) to learn which leaves are ever assembled
         outs = []
         w.render, w.interp = False, True
-        for args in m["calls"]:
+        for ci, args in enumerate(m["calls"]):
             w.out = []
-            w.args = list(args)
-            w.local = set()
-            try:
+            if all(t for _, t in wrs[ci]):
+                w.args = list(args)
+                w.local = set()
                 try:
-                    w.walk(it["body"], True)
-                    self._probes(idx, it, it.get("pf", 0))
-                except ExitM:
-                    pass
-            finally:
-                w.args = None
-                w.local = None
-                w.stack = []
+                    try:
+                        w.walk(it["body"], True)
+                        self._probes(idx, it, it.get("pf", 0))
+                    except ExitM:
+                        pass
+                finally:
+                    w.args = None
+                    w.local = None
+                    w.stack = []
+                w.out.append(SENTINEL)
+                w.stats["kinds"].add("call-depth%d" % len(wrs[ci]))
+            elif wrs[ci]:
+                w.stats["kinds"].add("call-skipped")
             outs.append(w.out)
         # 2. render the definition once (poison only in leaves no call assembles)
         w.render, w.interp = True, False
-        w.emit("%s\tmacro\t%s" % (name, ",".join("P%d" % i for i in range(m["np"]))))
+        w.emit("%s\tmacro\t%s" % (name, ",".join(PARAMS[:m["np"]])))
         mark = len(w.main)
         w.walk(it["body"], False)
         self._probes(idx, it, it.get("pf", 0))
         for l in w.main[mark:]:
             l["inmacro"] = True
         w.emit("\tendm")
-        # 3. the calls, each in its own slot, each followed by a sentinel outside the macro
+        w.stack = []
+        # 3. the calls, each in its own slot, each followed by a sentinel inside and one outside its wrappers
+        w.interp = True
         for ci, args in enumerate(m["calls"]):
+            w.cur_active = True
             w.emit("\torg\t%d" % base)
+            self._wrap_open(wrs[ci])
             a = list(args)
-            if it.get("trim", 0):
+            if it.get("kw"):
+                a = ["%s=%s" % (PARAMS[i], v) for i, v in enumerate(a) if v != ""]
+                if it.get("kw") == 2:
+                    a.reverse()
+                w.stats["kinds"].add("keyword-args")
+            elif it.get("trim", 0):
                 while a and a[-1] == "":
                     a.pop()
             w.emit("\t%s\t%s" % (name, ",".join(a)) if a else "\t" + name)
             w.db(str(SENTINEL))
-            self._place(idx, ci, base, outs[ci] + [SENTINEL])
+            self._wrap_close(wrs[ci])
+            w.db(str(SENTINEL - 1))
+            self._place(idx, ci, base, outs[ci] + [SENTINEL - 1])
             base += size
         w.render, w.interp = True, True
         return base
+
+    def _loop_item(self, idx, it, base, size):
+        """IRP (one parameter, integer arguments) or REPT n around the body; leaves define no symbols"""
+        w = self.w
+        lp = it["loop"]
+        wr = lp.get("wr") or []
+        vals = lp["vals"] if lp["k"] == "irp" else [None] * lp["n"]
+        w.out = []
+        w.render, w.interp = False, True
+        if all(t for _, t in wr):
+            try:
+                for v in vals:
+                    w.args = [str(v)] if v is not None else None
+                    w.walk(it["body"], True)
+                    w.stack = []
+            except ExitM:
+                pass
+            w.args = None
+            w.stack = []
+            w.out.append(SENTINEL)
+            w.stats["kinds"].add(lp["k"])
+        out = w.out
+        w.render, w.interp = True, False
+        w.cur_active = True
+        w.emit("\torg\t%d" % base)
+        w.interp = True
+        self._wrap_open(wr)
+        w.interp = False
+        if lp["k"] == "irp":
+            w.stmt("irp", "QA," + ",".join(_num(v) for v in vals))
+        else:
+            w.stmt("rept", str(lp["n"]))
+        save = w.stack
+        w.stack = []
+        w.walk(it["body"], False)
+        w.stack = save
+        w.stmt("endm")
+        w.interp = True
+        w.db(str(SENTINEL))
+        self._wrap_close(wr)
+        w.db(str(SENTINEL - 1))
+        self._place(idx, 0, base, out + [SENTINEL - 1])
+        w.render, w.interp = True, True
+        return base + size
 
 
 # ------------------------------------------------------------------ exhaustive enumeration (small space)
@@ -742,25 +880,24 @@ STRAYS = ["else", "elseif 1", "endif", "case 1", "elsecase", "endcase"]
 
 
 def classify_stray(stmt, stack, active):
-    """'must' = the manual makes this statement an error at this place; 'noclaim' otherwise"""
+    """'must' = no reading of the manual pairs this statement at this place; 'noclaim' otherwise.
+    stack entries: (type, default branch seen, construct itself assembled)"""
     inner = stack[-1] if stack else None
     has_if = any(s[0] == "I" for s in stack)
     has_sw = any(s[0] == "S" for s in stack)
     w = stmt.split()[0]
     if w in ("endif", "endcase"):
         return "must"                 # one closer more than openers can never be paired
-    if not active:
-        return "noclaim"
     if w in ("else", "elseif"):
         if not has_if:
-            return "must"             # no IF construct is open at all
-        if inner[0] == "I" and inner[1]:
+            return "must" if active else "noclaim"      # no IF construct is open at all
+        if inner[0] == "I" and inner[1] and inner[2]:
             return "must"             # "An ELSEIF without parameters must be the last branch"
         return "noclaim"
     if w in ("case", "elsecase"):
         if not has_sw:
-            return "must"
-        if inner[0] == "S" and inner[1]:
+            return "must" if active else "noclaim"
+        if inner[0] == "S" and inner[1] and inner[2]:
             return "must"             # after ELSECASE only ENDCASE may follow
         return "noclaim"
     return "noclaim"
